@@ -145,7 +145,8 @@ namespace cs
                                     (long long)r.below(2)});
                     break;
                 case 1:
-                    p.add("mvj", {(long long)r.below(100)});
+                    p.add("mvj", {(long long)r.below(100),
+                                  (profile == "C20J" || r.chance(1, 3)) && r.chance(1, 2) ? (long long)r.below(30) : 0});
                     break;
                 case 2:
                     p.add(r.chance(1, 2) ? "swapj" : "asj", {(long long)r.below(100), (long long)r.below(100)});
